@@ -81,11 +81,15 @@ pub fn build(
         .type_registry
         .resolve_grammar_type(&module.scope(), &definition.type_)
     else {
+        #[cfg(pyxis_verif)]
+        crate::verif::probe("defer:enum_base_unresolved");
         return Ok(None);
     };
 
     // TODO: verify that `ty` actually makes sense for an enum
     let Some(size) = ty.size(&semantic.type_registry) else {
+        #[cfg(pyxis_verif)]
+        crate::verif::probe("defer:enum_base_size_unknown");
         return Ok(None);
     };
 
